@@ -10,4 +10,7 @@ pub assume_specification<T: Ord + core::marker::Destruct>[ core::cmp::min::<T> ]
         (a.cmp_spec(&b) == core::cmp::Ordering::Greater) ==> r == b,
         !(a.cmp_spec(&b) == core::cmp::Ordering::Greater) ==> r == a,
 ;
+// ---- TRUSTED: mem::drop consumes its argument (for a `&mut` argument: the borrow ends with its current value)
+pub assume_specification<T>[ core::mem::drop::<T> ](x: T)
+    ensures has_resolved(x);
 }
